@@ -57,8 +57,10 @@ def _install_tempfiles():
 
 
 _ROBOTS_URL = 'http://h.example/robots.txt'
-_DISALLOW_ALL = b'User-agent: *\nDisallow: /\n'
-_ALLOW_ALL = b'User-agent: *\nDisallow:\n'
+_DISALLOW_ALL = b'User-agent: *\nDisallow: /'          # no line terminator at the end of the file
+_ALLOW_ALL = b'User-agent: *\nDisallow:'
+_MOVED_HTML = b'<html>\n<head><title>301 Moved Permanently</title></head>\n<body>\n<center><h1>301 Moved Permanently</h1></center>\n' \
+              b'<hr><center>nginx</center>\nUser-agent: *\nAllow: /\n</body>\n</html>\n'
 
 
 def _status_handling(status, nredirects, proto_error, disallow, neterr):
@@ -77,7 +79,8 @@ def _status_handling(status, nredirects, proto_error, disallow, neterr):
             return 'neterr'
         return (status, None)
     client = stubs.StubHTTPClient(answer=answer)
-    client.body_for = lambda resp: body
+    # redirect responses carry the usual HTML body, longer than the robots.txt that follows; the file is re-used across hops
+    client.body_for = lambda resp: (_MOVED_HTML if 300 <= resp.status_code < 400 else body)
     checker = RobotsTxtChecker(web_client=WebClient(http_client=client))
     req = Request('http://h.example/private/page')
     try:
